@@ -1,4 +1,5 @@
 import Proofs.NotaryProofs
+import Proofs.NotaryFine
 import Properties.C04
 /-!
 # C16 — contracts need the receiver; reads need proof of key ownership
@@ -177,6 +178,97 @@ theorem only_receiver_removes (c : Cfg) (s : St) (hn : (s.awaiting.map (·.hash)
   | saved r => exact absurd ht hgone
   | ledgerDrop hs => exact absurd ht hgone
 
+/-! ## Concurrent duplicate calls: Confirm and Reject split at their lock boundaries
+
+`Confirm` and `Reject` take the transaction off the awaiting cache under the cache mutex and seal it later
+under the ledger lock; between the two halves any other call may run. `fstep` executes whole calls and
+half calls in any order (`pending` holds the calls that are between their halves). -/
+
+/-- a whole `Confirm` is its two halves run back to back -/
+theorem confirm_is_two_halves (c : Cfg) (s : St) (t : TrxB) (lo : Bool) :
+    (fstep c (fstep c ⟨s, []⟩ (.confirmRemove t)) (.sealAt 0 lo)).s = (confirm c s t lo).1 := by
+  unfold confirm
+  by_cases hv : verifyIssuerReceiver c.o t = true
+  · simp only [fstep, hv, Bool.not_true, Bool.false_eq_true, ↓reduceIte]
+    rcases @removeAwaiting_other s t.hash t.receiver with e | e | ⟨t0, s1, e⟩
+    · rw [e]; rfl
+    · rw [e]; rfl
+    · rw [e]
+      simp only [List.nil_append, List.getElem?_cons_zero, Bool.false_eq_true, ↓reduceIte]
+      cases sealTrx s1 t lo <;> rfl
+  · have hf : verifyIssuerReceiver c.o t = false := by simpa using hv
+    simp [fstep, hf]
+
+/-- a whole `Reject` is its two halves run back to back -/
+theorem reject_is_two_halves (c : Cfg) (s : St) (r : SignedHash) (lo : Bool) :
+    (fstep c (fstep c ⟨s, []⟩ (.rejectRemove r)) (.sealAt 0 lo)).s = (reject c s r lo).1 := by
+  unfold reject
+  by_cases hv : verifySH c r = true
+  · simp only [fstep, hv, Bool.not_true, Bool.false_eq_true, ↓reduceIte]
+    rcases @removeAwaiting_other s r.data r.address with e | e | ⟨t0, s1, e⟩
+    · rw [e]; rfl
+    · rw [e]; rfl
+    · rw [e]
+      simp only [List.nil_append, List.getElem?_cons_zero, ↓reduceIte]
+      cases sealRej s1 t0 lo <;> rfl
+  · have hf : verifySH c r = false := by simpa using hv
+    simp [fstep, hf]
+
+theorem fstart_inv (c : Cfg) (base : List TrxB) (hb : (base.map (·.hash)).Nodup) : FInv c base [] ⟨start base, []⟩ :=
+  ⟨start_inv c base hb, (by intro p hp; cases hp)⟩
+
+/-- **Contracts need the receiver, under every interleaving.** Whatever the order in which whole calls
+and the halves of concurrent `Confirm` / `Reject` calls execute, every transaction the ledger gains
+carries a verifying issuer signature, and if it carries data the receiver acted: its receiver signature
+verifies, or the history contains a reject request (whole or first half) for its hash signed by the
+receiver's key. -/
+theorem interleaved_contract_needs_receiver (c : Cfg) (base : List TrxB) (hb : (base.map (·.hash)).Nodup) (ops : List FOp) (t : TrxB)
+    (ht : t ∈ (frun c ⟨start base, []⟩ ops).s.sealed) (hnew : t ∉ base) :
+    verifyIssuer c.o t = true ∧ (t.data ≠ [] →
+      verifyIssuerReceiver c.o t = true ∨
+      ∃ r, ((∃ lo, FOp.whole (.reject r lo) ∈ ops) ∨ FOp.rejectRemove r ∈ ops) ∧
+        r.data = t.hash ∧ r.address = t.receiver ∧ verifySH c r = true) := by
+  have h := finv_run ops (fstart_inv c base hb)
+  rcases h.inv.sealedJustified t ht with hbase | ⟨hv, hj⟩
+  · exact absurd hbase hnew
+  · refine ⟨hv, fun hd => ?_⟩
+    have := justified_erase (hj hd)
+    simpa using this
+
+/-- **At most once, under every interleaving**: concurrent duplicate confirmations / rejections of one
+transaction (any number of them between their halves at once) never put a hash into the ledger twice. -/
+theorem interleaved_sealed_at_most_once (c : Cfg) (base : List TrxB) (hb : (base.map (·.hash)).Nodup) (ops : List FOp) :
+    ((frun c ⟨start base, []⟩ ops).s.sealed.map (·.hash)).Nodup :=
+  (finv_run ops (fstart_inv c base hb)).inv.sealedOnce
+
+/-- a call between its halves is always one the receiver authorised -/
+theorem interleaved_pending_authorised (c : Cfg) (base : List TrxB) (hb : (base.map (·.hash)).Nodup) (ops : List FOp) (p : TrxB × Bool)
+    (hp : p ∈ (frun c ⟨start base, []⟩ ops).pending) :
+    verifyIssuer c.o p.1 = true ∧ (verifyIssuerReceiver c.o p.1 = true ∨
+      ∃ r, ((∃ lo, FOp.whole (.reject r lo) ∈ ops) ∨ FOp.rejectRemove r ∈ ops) ∧
+        r.data = p.1.hash ∧ r.address = p.1.receiver ∧ verifySH c r = true) := by
+  have h := (finv_run ops (fstart_inv c base hb)).pendingJustified p hp
+  refine ⟨h.1, ?_⟩
+  have := justified_erase h.2
+  simpa using this
+
+/-- two concurrent confirmations of one contract: only one of them gets the transaction off the awaiting
+list, whatever the order of the halves (the second `confirmRemove` finds nothing) -/
+theorem second_remove_finds_nothing (s s1 : St) (t t0 : TrxB)
+    (e : removeAwaiting s t.hash t.receiver = .removed t0 s1) (a : Bytes) :
+    removeAwaiting s1 t.hash a = .notFound := by
+  obtain ⟨_, _, _, ea, _⟩ := removeAwaiting_removed e
+  unfold removeAwaiting
+  have : findAwaiting s1 t.hash = none := by
+    unfold findAwaiting
+    rw [ea]
+    apply List.find?_eq_none.mpr
+    intro x hx
+    have := (List.mem_filter.mp hx).2
+    simpa using this
+  rw [this]
+
+
 /-! ## Reads need proof of key ownership -/
 
 /-- what a verifying `SignedHash` proves: the digest is the hash of the data and the signature is by the
@@ -312,5 +404,14 @@ example : (step tc (run tc (start []) [.propose contract true, .data [8, 8] [5, 
 example : (step tc (run tc (start []) [.propose contract true]) (.waiting chalReq)).2.1 = .errVerification := by decide +kernel
 example : (step tc (run tc (start []) [.propose contract true, .data [8, 8] [5, 5, 5], .expire]) (.waiting chalReq)).2.1 = .errVerification := by
   decide +kernel
+/-- two concurrent confirmations of one contract, halves interleaved: the second removal finds nothing,
+one call is between its halves, and after it reaches the ledger the contract is sealed exactly once -/
+example : (frun tc ⟨start [], []⟩ [.whole (.propose contract true), .confirmRemove countersigned, .confirmRemove countersigned]).pending
+    = [(countersigned, false)] := by decide +kernel
+example : (frun tc ⟨start [], []⟩ [.whole (.propose contract true), .confirmRemove countersigned, .confirmRemove countersigned,
+    .sealAt 0 true, .sealAt 0 true]).s.sealed = [countersigned] := by decide +kernel
+/-- a confirmation racing a whole second proposal + confirmation of the same contract: still sealed once -/
+example : (frun tc ⟨start [], []⟩ [.whole (.propose contract true), .confirmRemove countersigned, .whole (.propose contract true),
+    .whole (.confirm countersigned true), .sealAt 0 true]).s.sealed = [countersigned] := by decide +kernel
 
 end Props.C16
